@@ -964,7 +964,7 @@ func checkC09(e *env) {
 	}
 	e.flush()
 	// the extent is the tile matrix set's own (its bounding box), not the integer grid the index derives from it: on every accepted built-in
-	// set a vertex on the (exclusive) right/top border, a hair (1e-9, i.e. ten integer units, or four ulp) and a millimetre beyond each border, and far away (beyond what fits an int64
+	// set a vertex on the (exclusive) right/top border, a hair (1e-9, i.e. ten integer units, or four ulp), a millimetre and 17 fractions of a pixel beyond the borders, and far away (beyond what fits an int64
 	// of 1e-10 units, and infinite) must be rejected — both values of the flag
 	// … and then the same sets moved by a quarter of their width (same id, same sizes, another origin), as a caller may build them: what an
 	// earlier set left behind must not decide where this one ends
@@ -996,6 +996,10 @@ func checkC09(e *env) {
 			bad := [][2]float64{{tr[0], ay + 3*pix}, {tr[0] + math.Max(1e-9, 4*(math.Nextafter(math.Abs(tr[0]), math.Inf(1))-math.Abs(tr[0]))), ay + 3*pix}, {tr[0] + 0.001, ay + 3*pix}, {ax + 3*pix, tr[1]}, {ax + 3*pix, tr[1] + 0.001},
 				{bl[0] - 0.001, ay}, {bl[0] - math.Max(1e-9, 4*(math.Nextafter(math.Abs(bl[0]), math.Inf(1))-math.Abs(bl[0]))), ay}, {ax, bl[1] - 0.001}, {tr[0], tr[1]},
 				{9.3e8, ay}, {-9.3e8, ay}, {ax, 1e12}, {math.Inf(1), ay}, {ax, math.Inf(-1)}}
+			// less than a pixel beyond the left and the bottom border, at many distances (the quotient of the address rounds towards the grid there)
+			for _, f := range []float64{1e-7, 1e-6, 1e-5, 1e-4, 0.001, 0.01, 0.03, 0.1, 0.2, 0.3, 0.4, 0.5, 0.6, 0.7, 0.8, 0.9, 0.99} {
+				bad = append(bad, [2]float64{bl[0] - f*pix, ay}, [2]float64{ax, bl[1] - f*pix})
+			}
 			for bi, b := range bad {
 				for _, iog := range []bool{false, true} {
 					c := &snapCase{gs: gs, tmids: []int{id}, tag: "outside-the-extent-of-the-set"}
